@@ -257,6 +257,10 @@ pub struct Layout {
     /// Position (line index) before which each metadata line is written; cycled; empty = all on top.
     pub meta_pos: Vec<usize>,
     pub final_newline: bool,
+    /// Pad the file with a trailing comment line to exactly this many bytes (sizes at and around I/O buffer
+    /// boundaries); ignored when the file is already longer.
+    #[serde(default)]
+    pub pad_to: Option<usize>,
 }
 
 impl Layout {
@@ -297,6 +301,17 @@ pub fn render(b: &Building, lay: &Layout) -> String {
     s.push_str(&rows.join(nl));
     if lay.final_newline {
         s.push_str(nl);
+    }
+    if let Some(target) = lay.pad_to {
+        // "<nl># xxxx" brings the file to exactly `target` bytes (needs room for the line break and "# ")
+        let lead = if s.ends_with('\n') || s.is_empty() { "" } else { nl };
+        let overhead = lead.len() + 2;
+        if s.len() + overhead <= target {
+            let fill = target - s.len() - overhead;
+            s.push_str(lead);
+            s.push_str("# ");
+            s.push_str(&"x".repeat(fill));
+        }
     }
     s
 }
